@@ -169,6 +169,13 @@ Definition layout_offset_us (l:layout) : Z :=
   end.
 Definition denoted_us (l:layout) (c:civil) : Z := instant_us c (layout_us l) - layout_offset_us l.
 
+(* ---- the fraction of a second as a DIGIT STRING (VC06): ".d1...dk" denotes (d1...dk read as a decimal integer)
+   * 10^(6-k) microseconds - exact integer arithmetic, no rounding, for every digit string of the length a layout
+   admits ---- *)
+Definition digits_value (ds:list Z) : Z := fold_left (fun a b => a * 10 + (b - 48)) ds 0.
+Definition fraction_us (ds:list Z) : Z := digits_value ds * 10 ^ (6 - len ds).
+Definition all_digits (ds:list Z) : bool := forallb is_digit ds.
+
 (* ---- dates (DateImporter): the texts '%Y-%m-%d' reads, what they denote ---- *)
 Definition date_ok (y m d:Z) : bool :=
   (1 <=? y) && (y <=? 9999) && (1 <=? m) && (m <=? 12) && (1 <=? d) && (d <=? days_in_month y m).
